@@ -106,7 +106,7 @@ def fatal(rng, ident):
     alone = bool(bad) and kind not in (6, 7) and rng.chance(1, 2)
     if alone:
         s.append("waitdone")
-    s.append("readerr/%s" % rng.choice(["eof", "op", "other"]))
+    s.append("readerr/%s" % rng.choice(["eof", "op", "other", "optimeout", "deadline"]))
     s += ["waitdone", "observe/stopped", "settle", "observe/stopped2", "finishall", "observe/end"]
     return scn.line("scn", ident, s, extra="nt=1 family=fatal expectend=stopped handlers=1 alone=%d" % (1 if alone else 0))
 
@@ -125,7 +125,7 @@ def close_race(rng, ident):
               "close", "observe/b", "release/TransportError", "settle", "observe/c"]
         fam = "local-close-wins"
     elif v == 3:    # the loop's own exit first, then a local Close
-        s += ["run", "readerr/%s" % rng.choice(["eof", "other", "op"]), "waitdone", "observe/a", "close", "observe/b", "settle", "observe/c"]
+        s += ["run", "readerr/%s" % rng.choice(["eof", "other", "op", "optimeout", "deadline"]), "waitdone", "observe/a", "close", "observe/b", "settle", "observe/c"]
         fam = "loop-exit-first"
     elif v == 4:    # concurrent closers
         s += ["run", "close/nowait", "close/nowait", "close/nowait", "waitdone", "observe/a", "settle", "observe/b"]
@@ -137,6 +137,32 @@ def close_race(rng, ident):
         s += ["run", "close/nowait", "readerr/eof", "waitdone", "observe/a", "settle", "observe/b"]
         fam = "simultaneous"
     return scn.line("scn", ident, s, extra="nt=1 family=%s expectend=stopped" % fam)
+
+
+def read_fault(rng, ident):
+    """every class of read error (end of stream, closed connection, an expired read deadline as a net.Conn reports it, net.Pipe's
+    bare deadline error, anything else), arriving between two frames / inside a length prefix / inside a frame body, after
+    some traffic was served: the transport must stop, and calls made afterwards must fail"""
+    kind = rng.choice(["eof", "op", "other", "optimeout", "deadline"])
+    where = rng.choice(["between", "between", "prefix", "body"])
+    ch = mp.Chooser()
+    good = frames.frame(frames.content([2, ("s", scn.M), scn.arg(100)], ch), ch)
+    s = ["observe/start", "watch/on"]
+    hs = 0
+    if rng.chance(2, 3):
+        s += ["feed/" + good.hex(), "waithandlers/1", "finishall"]
+        hs = 1
+    exp = []
+    if rng.chance(1, 2):
+        s += [scn.call(1), "replyto/1", "await/c1"]; exp.append("1:ok")
+    s.append("observe/mid")
+    if where == "prefix":
+        s.append("feednowait/ce0000")
+    elif where == "body":
+        s.append("feednowait/" + good[: 2 + rng.below(len(good) - 3)].hex())
+    s += ["readerr/" + kind, "waitdone", "observe/stopped", "settle", "observe/stopped2"]
+    s += [scn.call(2, nowait=True), "await/c2", "observe/end"]; exp.append("2:eof+werr+other")
+    return scn.line("scn", ident, s, extra="nt=1 family=read-fault-%s-%s expectend=stopped handlers=%d expect=%s" % (kind, where, hs, ",".join(exp)))
 
 
 def explore(ctx):
@@ -154,5 +180,7 @@ def explore(ctx):
             lines.append(fatal(rng, "f%d" % n)); n += 1
         for _ in range({"quick": 80, "thorough": 1500, "search": 300}[tier]):
             lines.append(close_race(rng, "r%d" % n)); n += 1
+        for _ in range({"quick": 60, "thorough": 600, "search": 120}[tier]):
+            lines.append(read_fault(rng, "t%d" % n)); n += 1
     triples, tie = C.run_both(ctx, "TestVerifScn", lines, go_timeout=1500)
     return dict(verdicts=triples, tie=tie, stats=dict(scenarios=len(lines)))
